@@ -68,7 +68,7 @@ def gen_plan(seed, tier):
             x = [gen_val(rng) for _ in range(dim)]
             x = [v if v == v and abs(v) != inf else float(rng.randint(-3, 3)) for v in x] if rng.random() < 0.7 else x
             y = [gen_val(rng) for _ in range(rng.choice([2, 3]))] if vec else gen_val(rng)
-            ops.append({'op': 'call', 'slot': s, 'x': x, 'y': y, 'id': rng.choice([None, None, 0, 3]),
+            ops.append({'op': 'call', 'slot': s, 'x': x, 'y': y, 'id': rng.choice([None, None, 0, 3, 1, 0]),
                         'xt': rng.choice(['list', 'list', 'array', 'tuple', 'npscalars', 'reuse']),
                         'yt': rng.choice(['py', 'py', 'np', 'int'] if not vec else ['list', 'array', 'tuple', 'list'])})
         elif c < 0.63:
@@ -345,6 +345,7 @@ def _run(plan, run, violate, stats):
             elif t == 'readlog':
                 s = op['slot']
                 if s in refs: check_log(s, op['how'], when)
+                if s in mons and s in refs and len(refs[s].recs): check_iterations(mg, mons[s], refs[s], violate, stats, when)
             elif t == 'write':
                 s = op['slot']
                 if s not in mons or not len(refs[s].recs): continue
@@ -413,6 +414,29 @@ def unchanged(before, m, violate, when, s):
     if not feq(before, after):
         violate('operand_mutated', '%s: operand slot %d was altered by the operation: %s'
                 % (when, s, observe.first_diff({'v': before}, {'v': after})))
+
+
+def check_iterations(mg, m, r, violate, stats, when):
+    """the readers that take a monitor hand back (iteration, id) per record: the k-th record of an id is iteration k-1 of that
+    id, in whatever order records of different ids arrived (workers / ensemble members sharing one monitor)"""
+    ids = [rec.id for rec in r.recs]
+    if all(i is None for i in ids): want = [(k,) for k in range(len(ids))]
+    else:
+        want = []; seen = {}
+        for i in ids:
+            want.append((seen.get(i, 0), i)); seen[i] = seen.get(i, 0) + 1
+    stats['iteration_checks'] = stats.get('iteration_checks', 0) + 1
+    for how in ('read_trajectories', 'read_history'):
+        try:
+            got = getattr(mg, how)(m, iter=True)[0]
+        except Exception as e:
+            violate('monitor_record_changed', '%s: %s(monitor, iter=True) raised %s: %s' % (when, how, type(e).__name__, str(e)[:160]), how=how)
+            continue
+        got = [tuple(g) for g in got]
+        if got != want:
+            violate('monitor_record_changed', '%s: %s(monitor, iter=True) gives the iterations %r for the recorded ids %r, expected %r'
+                    % (when, how, got[:8], ids[:8], want[:8]), how=how, interleaved=len(set(ids)) > 1)
+            return
 
 
 def roundtrip(op, m, r, fs, mg, violate, stats, when):
